@@ -108,7 +108,7 @@ pub fn run_batch(scn: &dyn Scenario, tier: Tier, seed: u64, n: u64, nworkers: us
                         break;
                     }
                     let tape = Tape::from_seed(run_seed(seed, scn.name(), i));
-                    let r = execute(scn, tape, tier, false);
+                    let r = execute(scn, tape, tier, false, i);
                     local.runs += 1;
                     local.events += r.ctx.events;
                     local.draws += r.ctx.tape.rec.len() as u64;
@@ -166,7 +166,7 @@ pub fn run_batch(scn: &dyn Scenario, tier: Tier, seed: u64, n: u64, nworkers: us
     let mut samples = Vec::new();
     for i in 0..n.min(3) {
         let tape = Tape::from_seed(run_seed(seed, scn.name(), i));
-        let r = execute(scn, tape, tier, true);
+        let r = execute(scn, tape, tier, true, i);
         let mut tr: Vec<J> = r.ctx.trace.iter().take(60).map(|s| J::s(truncate(s, 240))).collect();
         if r.ctx.trace.len() > 60 {
             tr.push(J::s(format!("... {} more events", r.ctx.trace.len() - 60)));
@@ -208,8 +208,8 @@ fn truncate(s: &str, n: usize) -> String {
 // ---------------------------------------------------------------------------------------------
 
 /// Re-executes a tape; returns the violation class if it still fails.
-fn fails_with(scn: &dyn Scenario, tier: Tier, tape: &[u64]) -> Option<(String, Vec<u64>)> {
-    let r = execute(scn, Tape::from_values(tape.to_vec()), tier, false);
+fn fails_with(scn: &dyn Scenario, tier: Tier, index: u64, tape: &[u64]) -> Option<(String, Vec<u64>)> {
+    let r = execute(scn, Tape::from_values(tape.to_vec()), tier, false, index);
     match r.verdict {
         Err(v) if r.harness_error.is_none() => Some((v.class, r.ctx.tape.rec)),
         _ => None,
@@ -217,7 +217,7 @@ fn fails_with(scn: &dyn Scenario, tier: Tier, tape: &[u64]) -> Option<(String, V
 }
 
 /// Shrinks a failing tape while the same violation class persists.
-pub fn shrink(scn: &dyn Scenario, tier: Tier, class: &str, tape: Vec<u64>) -> (Vec<u64>, u64) {
+pub fn shrink(scn: &dyn Scenario, tier: Tier, index: u64, class: &str, tape: Vec<u64>) -> (Vec<u64>, u64) {
     let start = Instant::now();
     let mut execs = 0u64;
     let budget_execs = 3000u64;
@@ -228,7 +228,7 @@ pub fn shrink(scn: &dyn Scenario, tier: Tier, class: &str, tape: Vec<u64>) -> (V
             return None;
         }
         *execs += 1;
-        match fails_with(scn, tier, cand) {
+        match fails_with(scn, tier, index, cand) {
             // The recorded tape of the re-execution is the canonical (already reduced) form.
             Some((c, rec)) if c == class => Some(rec),
             _ => None,
@@ -316,7 +316,7 @@ pub fn shrink(scn: &dyn Scenario, tier: Tier, class: &str, tape: Vec<u64>) -> (V
 }
 
 pub fn write_replay(scn: &dyn Scenario, tier: Tier, seed: u64, index: u64, original_len: usize, shrink_execs: u64, tape: &[u64]) -> (PathBuf, Violation, u64) {
-    let r = execute(scn, Tape::from_values(tape.to_vec()), tier, true);
+    let r = execute(scn, Tape::from_values(tape.to_vec()), tier, true, index);
     let v = r.verdict.clone().err().unwrap_or_else(|| Violation::new("none", "replay did not fail"));
     let dir = verif_dir().join("replays");
     let _ = std::fs::create_dir_all(&dir);
@@ -365,7 +365,8 @@ pub fn replay_file(path: &Path, scenarios: &[Box<dyn Scenario>]) -> i32 {
     let tape: Vec<u64> = j.get("tape").and_then(J::as_arr).map(|a| a.iter().filter_map(J::as_u64).collect()).unwrap_or_default();
     let want_class = j.get("class").and_then(J::as_str).unwrap_or("").to_string();
     let want_hash = j.get("log_hash").and_then(J::as_str).unwrap_or("").to_string();
-    let r = execute(scn.as_ref(), Tape::from_values(tape), tier, true);
+    let index = j.get("run").and_then(J::as_u64).unwrap_or(0);
+    let r = execute(scn.as_ref(), Tape::from_values(tape), tier, true, index);
     for line in &r.ctx.trace {
         println!("  {line}");
     }
